@@ -346,11 +346,23 @@ void run_c14(const gen::GGraph &gg, RunResult &r) {
 }
 
 // =============================================================================== C16
-void run_c16(const gen::GGraph &gg, RunResult &r) {
+void run_c16(const gen::GGraph &gg, RunResult &r, int history = 0) {
     r.entry = "ForestIndex";
-    r.dkey = gen::graph_hash(gg);
+    r.dkey = sim::mix64(gen::graph_hash(gg), (uint64_t) history);
     Built<GraphD> b; b.build(gg);
-    parmcb::ForestIndex<GraphD> fi(b.g);
+    // histories: 0 = the object as constructed; 1 = a copy whose source has been destroyed;
+    // 2 = copy-assigned over an index of another graph, source destroyed; 3 = swapped
+    typedef parmcb::ForestIndex<GraphD> FI;
+    std::unique_ptr<FI> holder;
+    {
+        std::unique_ptr<FI> src(new FI(b.g));
+        if (history == 0) holder = std::move(src);
+        else if (history == 1) { holder.reset(new FI(*src)); src.reset(); }
+        else if (history == 2) { GraphD other; boost::add_vertex(other); boost::add_vertex(other); boost::add_edge(0, 1, other); holder.reset(new FI(other)); *holder = *src; src.reset(); }
+        else { GraphD other; boost::add_vertex(other); FI tmp(other); std::swap(tmp, *src); holder.reset(new FI(tmp)); src.reset(); }
+    }
+    if (history) r.fired["forestindex_copy_history"]++;
+    const FI &fi = *holder;
     orc::Graph og = gen::to_oracle(gg);
     int c = gg.n == 0 ? 0 : orc::components(og), m = gg.m(), dim = m - gg.n + c;
     if ((int) fi.weak_connected_components() != c) { r.fail("components", "reports " + std::to_string(fi.weak_connected_components()) + " components, graph has " + std::to_string(c)); return; }
@@ -418,8 +430,8 @@ void run_c17(const Json &cs, RunResult &r) {
 
 Json gen_c17(sim::Rng &rng) {
     Json cs = Json::object(); Json ops = Json::array();
-    size_t dim = rng.chance(100) ? 1000000 : (size_t) rng.range(1, 64);
-    auto rset = [&]() { Json s = Json::array(); std::set<size_t> t; int k = (int) rng.range(0, 8); for (int i = 0; i < k; i++) t.insert((size_t) rng.below(dim)); for (auto x : t) s.push((long long) x); return s; };
+    size_t dim = rng.chance(100) ? 1000000 : (rng.chance(300) ? (size_t) rng.range(40, 80) : (size_t) rng.range(1, 64));
+    auto rset = [&]() { Json s = Json::array(); std::set<size_t> t; int k = (dim >= 40 && rng.chance(250)) ? (int) rng.range(17, 48) : (int) rng.range(0, 8); for (int i = 0; i < k; i++) t.insert((size_t) rng.below(dim)); for (auto x : t) s.push((long long) x); return s; };
     int n = (int) rng.range(1, 40);
     static const char *names[] = { "unit", "set", "copy", "move", "assign", "self_assign", "add", "add_assign", "add_assign", "add", "clear", "dot", "dot_set" };
     for (int k = 0; k < n; k++) {
@@ -627,11 +639,28 @@ public:
             else if (p == "C13") { o.max_n = thorough && rng.chance(300) ? 60 : 14; o.max_m = 200; o.allow_int = false; }
             else if (p == "C14") { o.max_n = thorough && rng.chance(250) ? 24 : 9; o.max_m = thorough ? 60 : 30; }
             else if (p == "C16") { o.max_n = thorough && rng.chance(300) ? 60 : 12; o.max_m = 200; o.allow_int = false; }
+            o.multi_pm = (p == "C13" || p == "C16") ? 120 : 60; if (p == "C13" || p == "C14" || p == "C16") o.max_n = std::max(o.max_n, 16);
             o.boundary_pm = prop == "C07" ? 25 : 10; o.boundary_max_n = (p == "C13" || p == "C16") ? 257 : 65;
             gen::GGraph g = gen::gen_graph(rng, o);
             if (p == "C12" && rng.chance(400)) for (auto &e : g.e) e.w = 1;      // maximal ties
+            else if (p == "C12" && g.wtype == "int" && rng.chance(350)) {
+                // large int weights: every sum the search can form (a distance plus one more edge) stays <= INT_MAX = n * cap,
+                // while distances on long paths pass INT_MAX / 2.  Half of these cases use a path-like graph (long shortest paths).
+                if (rng.chance(500)) {
+                    gen::EL el; int n = (int) rng.range(5, 12);
+                    if (rng.chance(500)) { for (int i = 0; i + 1 < n; i++) el.emplace_back(i, i + 1); if (rng.chance(500)) el.emplace_back((int) rng.below(3), (int) rng.range(2, 4)); }
+                    else gen::fam_cycle_chords(rng, n, (int) rng.range(0, 1), el);
+                    gen::dedup(el);
+                    g = gen::from_el(n, el); g.wtype = "int"; g.family = "longpath";
+                    gen::relabel_and_shuffle(rng, g);
+                }
+                int64_t cap = (int64_t) 2147483647 / std::max(1, g.n);
+                for (auto &e : g.e) e.w = rng.range(std::max<int64_t>(1, cap * 3 / 4), cap);
+                g.wexp = 0;
+            }
             cs = Json::object();
             cs["graph"] = gen::to_json(g);
+            if (p == "C16") cs["history"] = rng.chance(400) ? (int) rng.range(1, 3) : 0;
         }
         cs["gen_prop"] = p;
         return cs;
@@ -650,7 +679,7 @@ public:
             if (p == "C12") { if (gg.wtype == "int") run_c12<GraphI>(gg, r); else run_c12<GraphD>(gg, r); }
             else if (p == "C13") run_c13(gg, r);
             else if (p == "C14") { if (gg.wtype == "int") run_c14<GraphI>(gg, r); else run_c14<GraphD>(gg, r); }
-            else if (p == "C16") run_c16(gg, r);
+            else if (p == "C16") run_c16(gg, r, (int) cs.get_int("history", 0));
             else throw std::runtime_error("comp engine: unknown property " + p);
         }
         for (auto &c : r.classes) ch.log.add_str(c);
